@@ -613,7 +613,10 @@ pub fn run_c09(thorough: bool) -> i32 {
 /// account of the strings as configured may pass the sender check.
 fn c09_execute_grid(r: &mut Runner) {
     let k = K::k0();
-    let base = seed_submitted(&k);
+    let Some(base) = try_seed(|| seed_submitted(&k)) else {
+        r.notes.push("the submitted-batch seed cannot be built on this tree: the C09 execute grid is skipped (the other parts still run)".into());
+        return;
+    };
     let due = base.m.batches.values().find(|b| b.status == MStatus::Submitted).map(|b| (b.id, b.due, b.expected.unwrap_or(1)));
     let Some((bid, bdue, bexp)) = due else {
         r.require(false, "C09 execute grid needs a submitted batch");
